@@ -200,7 +200,7 @@ fn build_binary_op(
         for field in fields {
             let field_ty = &field.field.ty;
             let lhs = with_ref(&member(quote!(self), field), lhs_is_ref);
-            let rhs = with_ref(&member(quote!(rhs), field), rhs_is_ref);
+            let rhs = with_ref(&member(quote!(__rhs), field), rhs_is_ref);
             let lhs_ty = with_ref(field_ty, lhs_is_ref);
             let rhs_ty = with_ref(field_ty, rhs_is_ref);
             values.push(quote!(<#lhs_ty as #trait_<#rhs_ty>>::#func_name(#lhs, #rhs)));
@@ -217,7 +217,7 @@ fn build_binary_op(
             #[automatically_derived]
             impl #impl_g #trait_<#rhs_ty> for #self_ty #wheres {
                 type Output = #this_ty;
-                fn #func_name(self, rhs: #rhs_ty) -> Self::Output {
+                fn #func_name(self, __rhs: #rhs_ty) -> Self::Output {
                     #this_ty_ident #ctor_args
                 }
             }
@@ -254,7 +254,7 @@ fn build_assign_op(
         for field in fields {
             let field_ty = &field.field.ty;
             let lhs = member(quote!(self), field);
-            let rhs = with_ref(&member(quote!(rhs), field), rhs_is_ref);
+            let rhs = with_ref(&member(quote!(__rhs), field), rhs_is_ref);
             let rhs_ty = with_ref(field_ty, rhs_is_ref);
             exprs.push(quote!(<#field_ty as #trait_<#rhs_ty>>::#func_name(&mut #lhs, #rhs)));
             field.push_bounds_to(use_bounds, kind, &mut wcb);
@@ -266,7 +266,7 @@ fn build_assign_op(
         quote! {
             #[automatically_derived]
             impl #impl_g #trait_<#rhs_ty> for #this_ty #wheres {
-                fn #func_name(&mut self, rhs: #rhs_ty) {
+                fn #func_name(&mut self, __rhs: #rhs_ty) {
                     #(#exprs;)*
                 }
             }
@@ -345,7 +345,7 @@ fn build_clone_for_struct(
     for field in fields {
         let field_ty = &field.field.ty;
         let lhs = &member(quote!(self), field);
-        let rhs = &member(quote!(source), field);
+        let rhs = &member(quote!(__source), field);
         ctor_args.push(quote!(<#field_ty as #trait_>::clone(&#lhs)));
         clone_from_exprs.push(quote!(<#field_ty as #trait_>::clone_from(&mut #lhs, &#rhs)));
         field.push_bounds_to(use_bounds, kind, &mut wcb);
@@ -358,7 +358,7 @@ fn build_clone_for_struct(
             fn clone(&self) -> Self {
                 #this_ty_ident #ctor_args
             }
-            fn clone_from(&mut self, source: &Self) {
+            fn clone_from(&mut self, __source: &Self) {
                 #(#clone_from_exprs;)*
             }
         }
@@ -425,10 +425,10 @@ fn build_clone_for_enum(
                     #(#arms_clone,)*
                 }
             }
-            fn clone_from(&mut self, source: &Self) {
-                match (self, source) {
+            fn clone_from(&mut self, __source: &Self) {
+                match (self, __source) {
                     #(#arms_clone_from,)*
-                    (lhs, rhs) => *lhs = <Self as ::core::clone::Clone>::clone(rhs),
+                    (__lhs, __rhs) => *__lhs = <Self as ::core::clone::Clone>::clone(__rhs),
                 }
             }
         }
@@ -515,7 +515,7 @@ fn build_debug_for_struct(
     Ok(quote! {
         #[automatically_derived]
         impl #impl_g #trait_ for #this_ty #wheres {
-            fn fmt(&self, f: &mut ::core::fmt::Formatter) -> ::core::fmt::Result {
+            fn fmt(&self, __f: &mut ::core::fmt::Formatter) -> ::core::fmt::Result {
                 #ref_def
                 #expr
             }
@@ -565,7 +565,7 @@ fn build_debug_for_enum(
     Ok(quote! {
         #[automatically_derived]
         impl #impl_g #trait_ for #this_ty #wheres {
-            fn fmt(&self, f: &mut ::core::fmt::Formatter) -> ::core::fmt::Result {
+            fn fmt(&self, __f: &mut ::core::fmt::Formatter) -> ::core::fmt::Result {
                 #ref_def
                 match #this {
                     #(#arms,)*
@@ -580,8 +580,8 @@ fn build_debug_ref_def() -> TokenStream {
     quote! {
         struct __Ref<'__a, __T: ?::core::marker::Sized>(&'__a __T);
         impl<'__a, __T: ?::core::marker::Sized + ::core::fmt::Debug> ::core::fmt::Debug for __Ref<'__a, __T> {
-            fn fmt(&self, f: &mut ::core::fmt::Formatter) -> ::core::fmt::Result {
-                ::core::fmt::Debug::fmt(self.0, f)
+            fn fmt(&self, __f: &mut ::core::fmt::Formatter) -> ::core::fmt::Result {
+                ::core::fmt::Debug::fmt(self.0, __f)
             }
         }
     }
@@ -607,7 +607,7 @@ fn build_debug_expr(
     let expr = if let Some(field) = transparent_field {
         field.push_bounds_to(use_bounds, kind, wcb);
         let e = to_expr(field);
-        quote!(::core::fmt::Debug::fmt(#e, f))
+        quote!(::core::fmt::Debug::fmt(#e, __f))
     } else {
         let is_named = match fields_source {
             Fields::Named(_) => true,
@@ -619,7 +619,7 @@ fn build_debug_expr(
             false => quote!(debug_tuple),
         };
         let ident = ident.unraw();
-        expr.extend(quote!(f.#debug_x(::core::stringify!(#ident))));
+        expr.extend(quote!(__f.#debug_x(::core::stringify!(#ident))));
         for field in fields {
             if !field.hattrs.is_debug_ignore() {
                 let e = to_expr(field);
@@ -1208,10 +1208,13 @@ impl<'a> FieldEntry<'a> {
         }
     }
     fn make_ident(&self, prefix: &str) -> Ident {
+        // generated names start with `__` (reserved for the generator), whatever the field is called
+        let prefix = prefix.trim_start_matches('_');
+        let prefix = if prefix.is_empty() { "v" } else { prefix };
         if let Some(ident) = &self.field.ident {
-            format_ident!("{}_{}", prefix, ident)
+            format_ident!("__{}_{}", prefix, ident)
         } else {
-            format_ident!("{}_{}", prefix, self.index)
+            format_ident!("__{}_{}", prefix, self.index)
         }
     }
     fn push_bounds_to(&self, use_bounds: bool, kind: DeriveItemKind, wcb: &mut WhereClauseBuilder) {
